@@ -306,6 +306,7 @@ func TestCheck(t *testing.T) {
 		}
 	}
 	sourceChunking(s, thorough)
+	encodeSourceChunking(s, thorough)
 	if s.Replay == nil {
 		s.AddStats(qx.ExploreAll(t, items, s.Remaining())...)
 	}
